@@ -3,7 +3,7 @@ from typing import Any, Dict, List, Tuple
 
 import icontract
 
-from vfw.hlib import Tag, conc, fresh, note, untraced
+from vfw.hlib import Tag, conc, drive, fresh, note, untraced
 from vfw.hspec import B, H, I, bind
 
 N = 3  # contracted functions f0, f1, f2
@@ -352,8 +352,59 @@ ALL = ["top", "fuel", "e0", "e1", "e2", "e3", "e4", "e5", "b0", "b1", "b2", "b3"
        "c0", "c1", "c2", "t0", "t1", "t2"]
 
 
+def run_shared_raw(is_async: bool, role: int, x: int) -> Tuple[bool, bool]:
+    """Two checkers built over ONE raw function (f = require(A)(impl); g = require/ensure(B)(impl)), B calling f: while g's
+    contracts are evaluated only g is re-entrant - f is another contracted callable and must be fully checked."""
+    is_async = True if is_async else False
+    role = conc(role, 0, 1)
+    log = []  # type: List[Any]
+    if is_async:
+        async def impl(v: Any) -> Any:
+            log.append("body")
+            return v
+    else:
+        def impl(v: Any) -> Any:  # type: ignore
+            log.append("body")
+            return v
+
+    def a_cond(v: Any) -> Any:
+        log.append("f.pre")
+        return v > 0
+    f = icontract.require(a_cond, error=lambda: Tag("f.pre"))(impl)
+
+    def b_cond(v: Any) -> Any:
+        log.append("g.cond")
+        r = f(v)
+        if is_async:
+            r = drive(r)
+        return r is not None
+    if role == 0:
+        g = icontract.require(b_cond, error=lambda: Tag("g.pre"))(impl)
+    else:
+        g = icontract.ensure(b_cond, error=lambda: Tag("g.post"))(impl)
+    try:
+        r = g(x)
+        if is_async:
+            r = drive(r)
+        out = ("ret", r)  # type: Tuple[str, Any]
+    except Tag as err:
+        out = ("tag", err.label)
+    if x > 0:
+        ok = out == ("ret", x) and log.count("f.pre") == 1
+    else:
+        # f's precondition is violated by the call made from g's contract: that violation must surface
+        ok = out == ("tag", "f.pre")
+    note(("shared_raw", is_async, role, out[0]), not (x > 0))
+    return ok, not (x > 0)
+
+
 def harnesses(tier: str) -> List[H]:
     out = []  # type: List[H]
+    SR = ["is_async", "role", "x"]
+    out.append(H("shared_raw_function", bind(run_shared_raw, (), SR, {}, SR), [B("is_async"), I("role", 0, 1), I("x", -3, 3)],
+                 tiers=(tier,), timeout=200,
+                 family="two checkers over one raw function (def / async def); the precondition / postcondition of the second "
+                        "calls the first", family_size=4))
     E = lambda n: I(n, -1, N - 1)  # noqa: E731
     base = {n: -1 for n in ALL if n[0] in "ebpc"}  # type: Dict[str, Any]
     base.update({"t0": True, "t1": True, "t2": True, "top": 0, "fuel": 0})
